@@ -19,6 +19,7 @@ pub const REQUIRED: &[&str] = &[
     "first_use_after_second_use",
     "be_with_pointers",
     "empty_archive",
+    "poisoned_by_failing_calls_first",
 ];
 
 fn situations(m: &RefArchive) -> Vec<&'static str> {
@@ -326,6 +327,7 @@ pub fn run(cx: &mut Ctx) {
     let quick = cx.a.quick();
     for _ in 0..n {
         cx.case("random", |c| {
+            super::poison::maybe(c, 7);
             let mut rng = c.rng.clone();
             let m = gen(&mut rng, quick);
             c.rng = rng;
